@@ -47,6 +47,7 @@ type HReq struct {
 	Rules    []model.Rule `json:"rules"` // granted (under the plain cap unless Who says otherwise)
 	Rules2   []model.Rule `json:"rules2"` // under the https:// cap for both-caps
 	Spoof    string       `json:"spoof"`  // "" or a header claiming another source/identity (X-Forwarded-For, X-Real-Ip, Forwarded, Tailscale-User-Login)
+	Outage   bool         `json:"outage,omitempty"` // the state directory is unavailable while the request is served (only matters if it would write)
 }
 
 type HTTPCase struct {
@@ -183,6 +184,33 @@ func (r HReq) body(ver uint32) (data []byte, decodable bool) {
 		}
 		b, _ := json.Marshal(lower)
 		return append(b, '\n'), true
+	case "valid-omitted":
+		// fields whose value is the zero value are left out altogether (hand-written JSON does that):
+		// the request means exactly the same
+		slim := map[string]any{}
+		for k, v := range obj {
+			switch x := v.(type) {
+			case string:
+				if x == "" {
+					continue
+				}
+			case uint32:
+				if x == 0 {
+					continue
+				}
+			case bool:
+				if !x {
+					continue
+				}
+			case []byte:
+				if len(x) == 0 {
+					continue
+				}
+			}
+			slim[k] = v
+		}
+		b, _ := json.Marshal(slim)
+		return b, true
 	case "null":
 		return []byte("null"), true // a valid request with zero-valued fields
 	case "truncated":
@@ -354,10 +382,47 @@ func runC08(t *testing.T, c HTTPCase) (*h.Violation, h.Info) {
 		recBefore := sink.n()
 		before := tr.M.String()
 		w := httptest.NewRecorder()
+		outage := false
+		if r.Outage && len(failed) == 0 {
+			shadow := tr.Clone()
+			b0 := shadow.M.Render(true)
+			if wantS := shadow.Expect(effective, op, ver); wantS.Class == model.OK && shadow.M.Render(true) != b0 {
+				outage = true // the request is fine and would write: its save will fail
+				if err := os.Rename(dir, dir+".away"); err != nil {
+					return h.V("harness", "rename: %v", err), info
+				}
+			}
+		}
 		if v := h.Safely(func() *h.Violation { mux.ServeHTTP(w, req); return nil }); v != nil {
+			if outage {
+				os.Rename(dir+".away", dir)
+			}
 			return h.V("never-a-panic", "request %d %+v: handler panicked: %s", i, r, v.Detail), info
 		}
+		if outage {
+			if err := os.Rename(dir+".away", dir); err != nil {
+				return h.V("harness", "rename back: %v", err), info
+			}
+		}
 		status, reply := w.Code, w.Body.Bytes()
+		if outage {
+			// "some other 4xx/5xx for any other failure": not a success, and not one of the statuses that mean something else
+			info.Class("accepted-but-the-save-failed")
+			info.NonTrivial = true
+			if status < 400 || status == 403 || status == 404 {
+				return h.V("outcome-maps-to-status-exactly", "request %d %s /api/%s on %q: the request is well-formed, identified and permitted, its save failed because the state directory was unavailable; status %d (body %q) - want some other 4xx/5xx, not a success, a denial or a not-found", i, r.Method, r.Endpoint, r.Name, status, reply), info
+			}
+			if leak := leaks(reply, append(stored, op.Val)); leak != "" {
+				return h.V("non-200-reply-carries-no-secret", "request %d: status %d body %q contains %q", i, status, reply, leak), info
+			}
+			if dump, err := dbx.Dump(d); err != nil || dbx.DumpDiff(dump, tr.M) != "" {
+				return h.V("state-equals-model", "request %d: after its save failed: %v %s", i, err, dbx.DumpDiff(dump, tr.M)), info
+			}
+			sink.mu.Lock()
+			sink.lines = sink.lines[:min(len(sink.lines), recBefore+1)]
+			sink.mu.Unlock()
+			continue
+		}
 		desc := fmt.Sprintf("request %d %s /api/%s ct=%q hdr=%q who=%s addr=%s body(%s)=%q", i, r.Method, r.Endpoint, r.CT, r.Hdr, r.Who, r.Addr, r.BodyKind, body)
 		if status != 200 {
 			if leak := leaks(reply, stored); leak != "" {
@@ -588,15 +653,16 @@ func genHReq(rt *rapid.T) HReq {
 		}
 	}
 	if breaks == 0 {
-		r.BodyKind = rapid.SampledFrom([]string{"valid", "valid", "valid", "valid-variant", "null"}).Draw(rt, "validkind")
+		r.BodyKind = rapid.SampledFrom([]string{"valid", "valid", "valid-omitted", "valid-omitted", "valid-variant", "null"}).Draw(rt, "validkind")
 	}
 	r.Spoof = rapid.SampledFrom([]string{"", "", "", "X-Forwarded-For", "X-Real-Ip", "Forwarded", "Tailscale-User-Login"}).Draw(rt, "spoof")
+	r.Outage = rapid.IntRange(0, 2).Draw(rt, "outage") == 0
 	return r
 }
 
 var c08 = &h.Campaign[HTTPCase]{
 	Prop: "C08", Sub: "frontdoor",
-	Rule: "rapid: a superuser pre-history, then 1-12 requests built by class (construction, not rejection): method, Content-Type, browser header, endpoint (all seven), body class (valid, valid with lower-case/extra fields, null, truncated at a generated offset, wrong JSON type, bad base64, version out of range, non-JSON, empty), source address (known, unknown, unparsable), WhoIs answer (tagged, tagged with the placeholder login name, user, anonymous, error, a grant list that mixes valid rules with a non-rule, rules under the plain cap / the https:// cap / both / plain cap present but empty, malformed grants), with 0-3 gates broken per request; rejected => non-2xx, no audit record, dump unchanged; accepted => status and JSON body from the ACL+map model under exactly the effective rules, recorded principal = identity; no non-200 body contains stored values; non-trivial = request rejected by exactly one gate, or accepted with a status other than 200; distinct by scenario",
+	Rule: "rapid: a superuser pre-history, then 1-12 requests built by class (construction, not rejection): method, Content-Type, browser header, endpoint (all seven), body class (valid, valid with zero-valued fields omitted, valid with lower-case/extra fields, null, truncated at a generated offset, wrong JSON type, bad base64, version out of range, non-JSON, empty), source address (known, unknown, unparsable), WhoIs answer (tagged, tagged with the placeholder login name, user, anonymous, error, a grant list that mixes valid rules with a non-rule, rules under the plain cap / the https:// cap / both / plain cap present but empty, malformed grants), with 0-3 gates broken per request; rejected => non-2xx, no audit record, dump unchanged; accepted => status and JSON body from the ACL+map model under exactly the effective rules, recorded principal = identity; no non-200 body contains stored values; non-trivial = request rejected by exactly one gate, or accepted with a status other than 200; distinct by scenario",
 	Quick: 3000, Thorough: 600000,
 	Gen: func(rt *rapid.T) HTTPCase {
 		return HTTPCase{
